@@ -175,6 +175,7 @@ Example C11_scope_example :
   let top := Chart "top" "1.0.0" [] None [suba; subb] None [] false in
   let v := [("global", VMap [("g", VNum 7)]); ("suba", VMap [("zz", VNum 1)])] in
   let v' := [("global", VMap [("g", VNum 7)]); ("suba", VMap [("zz", VNum 2); ("global", VMap [("h", VNum 3)])])] in
+  NoDup (map cname (cdeps top)) /\ ~ In global_key (map cname (cdeps top)) /\
   match coalesce false top v, coalesce false top v' with
   | Ok r, Ok r' =>
       lookup_path ["suba"; "global"; "g"] (VMap r) = Some (VNum 7)
